@@ -578,6 +578,206 @@ func genTeardownCase(r *rand.Rand, i int) caseIn {
 	return in
 }
 
+// ---- more than one BindLocalStream on one chain (round 4) ----
+
+// an SSRC for a second local stream: none of the case's stream, RTX and FEC SSRCs
+func otherStream(c cfgIn) uint32 { return c.SSRC + 1000 }
+
+// the chain gets a nack responder (the member that keeps its streams - buffer and writer - in a
+// table keyed by SSRC) with a stream filter that accepts the stream, unless it has one
+func withResponder(r *rand.Rand, in *caseIn) {
+	for _, m := range flatten(in.Members) {
+		if m.Kind == 2 && m.Opt != 2 {
+			return
+		}
+	}
+	resp := genMember(r, 2, 0)
+	if resp.Opt == 2 {
+		resp.Opt = 1
+	}
+	at := r.Intn(len(in.Members) + 1)
+	in.Members = append(in.Members[:at:at], append([]memberIn{resp}, in.Members[at:]...)...)
+}
+
+// a case whose application binds local streams WHILE it is writing: the case's stream bound again
+// (with or without an UnbindLocalStream in between), a second stream with another SSRC, up to three
+// extra bindings, each with a next writer of its own; every Write goes through one of the live
+// bindings (mostly the latest) and carries - mostly - the SSRC of that binding's stream
+func genRebind(r *rand.Rand, i int) caseIn {
+	in := genCase(r, "rebind")
+	c := in.Cfg
+	if i%4 != 3 {
+		in.Cfg.Nack = true
+		c = in.Cfg
+		withResponder(r, &in)
+	}
+	in.Nacks = nil
+	if len(in.Reads) > 2 {
+		in.Reads = in.Reads[:2]
+	}
+	if len(in.CReads) > 1 {
+		in.CReads = in.CReads[:1]
+	}
+	if len(in.CWrites) > 1 {
+		in.CWrites = in.CWrites[:1]
+	}
+	nw := 4 + r.Intn(7)
+	nb := 1 + r.Intn(3)
+	// binding k (k >= 1) is made before write at[k-1]
+	type bstate struct {
+		ssrc uint32
+		live bool
+	}
+	bs := []bstate{{c.SSRC, true}}
+	for k := 0; k < nb; k++ {
+		bi := bindIn{After: 1 + r.Intn(nw-1)}
+		if k > 0 && in.Binds[k-1].After > bi.After {
+			bi.After = in.Binds[k-1].After
+		}
+		if r.Intn(10) < 3 {
+			bi.SSRC = otherStream(c)
+		}
+		bi.Unbind = r.Intn(5) < 2
+		in.Binds = append(in.Binds, bi)
+	}
+	in.Writes = nil
+	seq := uint16(r.Intn(65536)) //nolint:gosec
+	shape := -1
+	if r.Intn(3) == 0 {
+		shape = r.Intn(8)
+	}
+	errID := 1300
+	nextBind := 0
+	for w := 0; w < nw; w++ {
+		for nextBind < nb && in.Binds[nextBind].After <= w {
+			bi := in.Binds[nextBind]
+			ssrc := bi.SSRC
+			if ssrc == 0 {
+				ssrc = c.SSRC
+			}
+			if bi.Unbind {
+				for k := range bs {
+					if bs[k].ssrc == ssrc {
+						bs[k].live = false
+					}
+				}
+			}
+			bs = append(bs, bstate{ssrc, true})
+			nextBind++
+		}
+		via := len(bs) - 1
+		if r.Intn(4) == 0 { // an earlier binding that is still live (two streams side by side)
+			if k := r.Intn(len(bs)); bs[k].live {
+				via = k
+			}
+		}
+		ck := c
+		ck.SSRC = bs[via].ssrc
+		wi := writeIn{Pkt: genPkt(r, ck, seq, shape), Via: via}
+		if r.Intn(8) != 0 {
+			seq++
+		} else {
+			seq += uint16(r.Intn(5)) //nolint:gosec
+		}
+		for j := 0; j < 4; j++ {
+			rp := respIn{N: r.Intn(3000)}
+			if r.Intn(6) == 0 {
+				errID++
+				rp.Err = errID
+			}
+			wi.Resp = append(wi.Resp, rp)
+		}
+		in.Writes = append(in.Writes, wi)
+	}
+	if c.Nack && r.Intn(3) == 0 {
+		s := in.Writes[r.Intn(nw)].Pkt.H.Seq
+		in.Nacks = append(in.Nacks, []uint16{s, s + 1, s + 3})
+	}
+
+	return in
+}
+
+// an already generated case whose stream is bound a second time half way through its writes (same
+// SSRC, no Unbind in between in two cases out of three); the later writes go through the new binding
+func withRebind(r *rand.Rand, in caseIn) caseIn {
+	if len(in.Writes) < 2 || in.Inject || len(in.Binds) > 0 {
+		return in
+	}
+	at := 1 + r.Intn(len(in.Writes)-1)
+	in.Binds = []bindIn{{After: at, Unbind: r.Intn(3) == 0}}
+	ws := make([]writeIn, len(in.Writes))
+	copy(ws, in.Writes)
+	for i := at; i < len(ws); i++ {
+		ws[i].Via = 1
+	}
+	in.Writes = ws
+
+	return in
+}
+
+// ---- Close errors that are not pairwise distinct (round 4) ----
+
+// a chain in which several members fail on Close with THE SAME error value, or with an error that
+// wraps the sentinel another member returns (either order), flat and inside nested chains, between
+// library members and members whose Close succeeds
+func genCloseDup(r *rand.Rand, i int) caseIn {
+	in := genCase(r, "close-dup")
+	if len(in.Writes) > 2 {
+		in.Writes = in.Writes[:2]
+	}
+	if len(in.Reads) > 1 {
+		in.Reads = in.Reads[:1]
+	}
+	if len(in.CReads) > 1 {
+		in.CReads = in.CReads[:1]
+	}
+	if len(in.CWrites) > 1 {
+		in.CWrites = in.CWrites[:1]
+	}
+	in.Nacks = nil
+	if i%5 == 4 {
+		in.Members = nil
+	}
+	ids := []int{1 + r.Intn(6)}
+	if r.Intn(3) == 0 {
+		ids = append(ids, 1+r.Intn(6))
+	}
+	failing := func(depth int) memberIn {
+		m := memberIn{Kind: []int{15, 15, 15, 14}[r.Intn(4)], Var: r.Intn(12)}
+		m.CErr = ids[r.Intn(len(ids))]
+		if r.Intn(3) == 0 {
+			m.CErr = -m.CErr
+		}
+		_ = depth
+
+		return m
+	}
+	insert := func(m memberIn) {
+		at := r.Intn(len(in.Members) + 1)
+		in.Members = append(in.Members[:at:at], append([]memberIn{m}, in.Members[at:]...)...)
+	}
+	for k, n := 0, 2+r.Intn(4); k < n; k++ {
+		switch r.Intn(5) {
+		case 0: // inside a nested chain, next to another failing member or a quiet one
+			sub := []memberIn{failing(1)}
+			if r.Intn(2) == 0 {
+				sub = append(sub, failing(1))
+			} else {
+				sub = append(sub, memberIn{Kind: 15})
+			}
+			if r.Intn(3) == 0 {
+				sub = append(sub, memberIn{Kind: 16, Sub: []memberIn{failing(2)}})
+			}
+			insert(memberIn{Kind: 16, Sub: sub})
+		default:
+			insert(failing(0))
+		}
+	}
+	in.Teardown = genTeardown(r, i)
+
+	return in
+}
+
 func deepCopy(in caseIn) caseIn {
 	out := in
 	out.Writes = make([]writeIn, len(in.Writes))
@@ -652,6 +852,22 @@ func main() {
 		nt := o.Scale(90, 3000)
 		for i := 0; i < nt; i++ {
 			add(genTeardownCase(r2, i), "teardown")
+		}
+		// round 4, again from a generator of their own (everything above stays what it was): streams
+		// bound more than once on one chain; Close errors that are not pairwise distinct
+		r3 := rand.New(rand.NewSource(o.Seed*104729 + 29)) //nolint:gosec
+		for i := range ins {
+			if b := buckets[i][0]; (b == "random" || b == "truncated" || b == "error-sweep") && r3.Intn(6) == 0 {
+				ins[i] = withRebind(r3, ins[i])
+			}
+		}
+		nrb := o.Scale(120, 4000)
+		for i := 0; i < nrb; i++ {
+			add(genRebind(r3, i), "rebind")
+		}
+		ncd := o.Scale(80, 3000)
+		for i := 0; i < ncd; i++ {
+			add(genCloseDup(r3, i), "close-dup")
 		}
 	}
 	results := make([]*result, len(ins))
@@ -813,6 +1029,78 @@ func shapeBuckets(res *result) []string {
 	}
 	if !res.closeNil {
 		put("close-error")
+	}
+	// bindings
+	if len(in.Binds) > 0 {
+		put("bind:more-than-one")
+		hasResp := false
+		for _, m := range flatten(in.Members) {
+			hasResp = hasResp || (m.Kind == 2 && (m.Opt == 1 || (m.Opt == 0 && in.Cfg.Nack)))
+		}
+		for _, bi := range in.Binds {
+			switch {
+			case bi.SSRC != 0:
+				put("bind:second-stream-other-ssrc")
+			case bi.Unbind:
+				put("bind:unbind-then-bind-again")
+			default:
+				put("bind:same-ssrc-again-no-unbind")
+				if hasResp && bi.After < len(in.Writes) {
+					put("bind:same-ssrc-again-through-responder")
+				}
+			}
+		}
+		vs := map[int]bool{}
+		for _, o := range res.wops {
+			vs[o.via] = true
+		}
+		if len(vs) > 1 {
+			put("bind:writes-through-several-bindings")
+		}
+		last := -1
+		for _, o := range res.wops {
+			if o.via < last {
+				put("bind:older-binding-used-after-newer")
+			}
+			if o.via > last {
+				last = o.via
+			}
+		}
+	}
+	// Close errors
+	{
+		seen, dup, wrapDup := map[int]int{}, false, false
+		var walk func(ms []memberIn)
+		walk = func(ms []memberIn) {
+			for _, m := range ms {
+				if m.Kind == 16 {
+					walk(m.Sub)
+				}
+				if (m.Kind == 14 || m.Kind == 15) && m.CErr != 0 {
+					id := m.CErr
+					if id < 0 {
+						id = -id
+					}
+					if prev, ok := seen[id]; ok {
+						dup = true
+						if prev < 0 || m.CErr < 0 {
+							wrapDup = true
+						}
+					}
+					seen[id] = m.CErr
+				}
+			}
+		}
+		walk(in.Members)
+		if len(seen) >= 2 {
+			put("close:several-failing-members")
+		}
+		if dup {
+			put("close:same-sentinel-from-two-members")
+		}
+		if wrapDup {
+			put("close:wrapped-and-plain-same-sentinel")
+		}
 	}
 	td := in.teardown()
 	closeAt, nOps := -1, map[int]int{}
